@@ -55,6 +55,7 @@ func (n *node) writeKey(k *kbuf, pass2 bool) {
 	k.bo(n.alive)
 	// apply lag: the mode (kept across a crash) and, below, everything about a held Ready
 	k.bo(n.lag)
+	k.bo(n.plag) // persist lag: the mode (kept across a crash like lag)
 	// persisted: HardState, snapshot metadata, entries
 	k.u(n.hs.Term)
 	k.u(n.hs.Vote)
@@ -137,6 +138,21 @@ func (n *node) writeKey(k *kbuf, pass2 bool) {
 		k.u(n.heldEntIdx)
 		k.u(n.heldEntTrm)
 		k.u(n.heldSnapIdx)
+		// persist lag: the Ready is held as a whole. What persist(n) will write and send is
+		// state: the HardState, the entries (range + hash of their current content), the
+		// snapshot boundary, the messages (count + hash of their current content)
+		k.bo(n.heldWhole)
+		if n.heldWhole {
+			k.u(n.heldHS.Term)
+			k.u(n.heldHS.Vote)
+			k.u(n.heldHS.Commit)
+			k.u(n.heldEntLo)
+			k.u(uint64(n.heldEntN))
+			k.b = append(k.b, n.heldEntSum[:]...)
+			k.u(n.heldSnapTrm)
+			k.u(uint64(n.heldMsgN))
+			k.b = append(k.b, n.heldMsgSum[:]...)
+		}
 		k.u(n.in.offset)
 		k.u(n.in.snapIdx)
 		k.u(n.in.snapTrm)
@@ -217,7 +233,7 @@ func (c *cluster) key() (uint64, []byte) {
 	u := &c.used
 	k.b = append(k.b, c.iso)
 	body := len(k.b)
-	k.b = append(k.b, u.Proposals, u.Drops, u.Dups, u.Crashes, u.Heartbeats, u.Compacts, u.ConfChanges, u.Transfers, u.Expires, u.Delays, u.Lags, u.Applies)
+	k.b = append(k.b, u.Proposals, u.Drops, u.Dups, u.Crashes, u.Heartbeats, u.Compacts, u.ConfChanges, u.Transfers, u.Expires, u.Delays, u.Lags, u.Applies, u.Plags, u.Persists)
 	sum := sha1.Sum(k.b)
 	return binary.LittleEndian.Uint64(sum[:8]), k.b[:body]
 }
